@@ -4,6 +4,7 @@ import (
 	"fmt"
 	"math/big"
 	"sort"
+	"strings"
 
 	"github.com/MinterTeam/minter-go-node/coreV2/types"
 )
@@ -521,6 +522,9 @@ func StandardWorld(name string) *World {
 	if f, ok := extraWorlds[name]; ok {
 		return f()
 	}
+	if strings.HasPrefix(name, "WR") {
+		return rewardWorld(name)
+	}
 	panic("unknown world " + name)
 }
 
@@ -528,4 +532,55 @@ func StandardWorld(name string) *World {
 func withUSDT(w *World) {
 	w.Coins = append(w.Coins, GenCoin{ID: 1993, Symbol: "USDTE", Crr: 0, Max: "", Owner: "", Mintable: true, Burnable: true})
 	w.Pools = append(w.Pools, GenPool{Coin0: "BIP", Coin1: "USDTE", Reserve0: "1000000u", Reserve1: "10000u", Holders: map[string]string{"a1": "100000u"}})
+}
+
+// rewardWorld: WD (stake period 2, BIP/USDT pool) with the knobs of the block-reward rule (C28) in the world's name:
+//   WR/p=10/pbip=905000/pusdt=10000/off=1/last=40/ptime=3600/em=cap-250
+// p: pool price in thousandths USDT per BIP (pool = 1 000 000 BIP : p*1000 USDT); pbip/pusdt: reserves remembered by the
+// previous price record (default: the pool's); off/last: its switched-off flag and last reward (BIP); ptime: its age in
+// seconds at the first block (default: never updated); em: emission at genesis in BIP, or cap-<n>.
+func rewardWorld(name string) *World {
+	w := StandardWorld("WD")
+	w.Name = name
+	kv := map[string]string{}
+	for _, part := range strings.Split(name, "/")[1:] {
+		if i := strings.Index(part, "="); i > 0 {
+			kv[part[:i]] = part[i+1:]
+		}
+	}
+	get := func(k, d string) string {
+		if v, ok := kv[k]; ok {
+			return v
+		}
+		return d
+	}
+	p := get("p", "10")
+	for i := range w.Pools {
+		if w.Pools[i].Coin1 == "USDTE" {
+			w.Pools[i].Reserve0 = "1000000u"
+			w.Pools[i].Reserve1 = p + "000u"
+		}
+	}
+	for i := range w.Accounts {
+		if strings.HasPrefix(w.Accounts[i].Name, "a") {
+			w.Accounts[i].Bal["USDTE"] = "1000000u"
+			w.Accounts[i].Bal["BIP"] = "100000000u"
+		}
+	}
+	pr := &GenPrevReward{BIP: get("pbip", "1000000") + "u", USDT: get("pusdt", p+"000") + "u", Reward: get("last", "110") + "u", Off: get("off", "0") == "1"}
+	if t := get("ptime", ""); t != "" {
+		var sec int64
+		fmt.Sscan(t, &sec)
+		w.defaults()
+		pr.Time = uint64(w.StartTime-sec) * 1000000000
+	}
+	w.PrevReward = pr
+	if em := get("em", ""); em != "" {
+		if strings.HasPrefix(em, "cap-") {
+			w.Emission = "10000000000u-" + em[4:] + "u"
+		} else {
+			w.Emission = em + "u"
+		}
+	}
+	return w
 }
